@@ -151,13 +151,13 @@ def run(ctx, chk):
     sub = Sub(chk, "C19/eod-refusal", lambda r: r.startswith("C20/") and r != "C20/nested-abort-propagates",
               instance_filter=lambda i: str(i).startswith("end_of_day"))
     rules_c20.run(ctx, sub)
-    chk.floor("end-of-day refusal obligations (shared with C20)", sub.count, 5)
+    chk.floor("end-of-day refusal obligations (shared with C20)", sub.count, 3)
     # "while other transactions are still open ...": the idle test is only as good as the token map - who may
     # write it and how an entry is removed (by its token, once) are the C07-a / C07-b clauses
     import rules_c07
     sub7 = Sub(chk, "C19/token-map", lambda r: r in ("C07-a/who-may-write", "C07-b/remove", "C07-b/remove-args"))
     rules_c07.run(ctx, sub7)
-    chk.floor("token-map obligations (shared with C07)", sub7.count, 6)
+    chk.floor("token-map obligations (shared with C07)", sub7.count, 4)
     chk.floor("C19 obligations", len(chk.obligations), 25)
 
 
@@ -257,4 +257,4 @@ def pending_answer(chk, f, zvt):
                 chk.fail("C19/sentinel", inst,
                          "the answer does not distinguish the 'nothing pending' sentinel FFFF from a real receipt number by an "
                          "equality test (tests on this path: present=%s, sentinel=%s)" % (present, is_ffff), f.sp(path[-1]))
-    chk.floor("get_pending answer paths", n, 3)
+    chk.floor("get_pending answer paths", n, 2)
